@@ -50,7 +50,7 @@ CONSTANTS
   Interval,         \* maintenance interval in the same abstract unit
   Kinds,            \* subset of {"n","e","u","new"}: normal / matches exception / matches unlimited rule / isNewSource
   MaxSteps,
-  Ts, WithDisabled,   \* thresholds >= 1; WithDisabled adds the threshold -1 (TLC cfg files have no negative literals)
+  Ts, WithDisabled,   \* thresholds >= 1, or 0 = block whatever no rule covers; WithDisabled adds the threshold -1 (TLC cfg files have no negative literals)
   T2s, Us, Modes,
   D_ResidualAfterUnban, D_ExceptionsIgnoredWithRules,
   M_CapPerSource, M_InvertAfterShortcut,
@@ -300,8 +300,9 @@ Arrive(s, kind, dt) ==
          thrS == ThrOf(s)
          pb1 == [pb EXCEPT ![s] = @ \/ (thrS >= 1 /\ win1[s] >= thrS)]
          resid1 == IF kind = "new" /\ r.touch THEN [resid EXCEPT ![s] = 0] ELSE resid
+         \* threshold 0 = "blocked by the settings": the statement does not determine the verdict
          why == IF Disabled THEN 1 ELSE IF kind = "e" THEN 2 ELSE IF Excepted(kind) THEN 3
-                ELSE IF ~pb1[s] THEN 4 ELSE 0
+                ELSE IF thrS = 0 THEN 0 ELSE IF ~pb1[s] THEN 4 ELSE 0
          step == [op |-> 0, src |-> s, kind |-> KindCode(kind), dt |-> dt,
                   mv |-> B2I(r.v), exp |-> IF why = 0 THEN -1 ELSE 0, why |-> why,
                   win |-> win1[s], thr |-> thrS, resid |-> resid[s],
@@ -383,7 +384,8 @@ ExceptionNeverDrops ==
      /\ ~(D_ExceptionsIgnoredWithRules /\ sc.mode = "rules" /\ Last.why = 2) => Last.mv = 0
 
 \* a record is refused by the antispam only if its source is currently banned
-SpamOnlyIfBanned == HasLast /\ IsArr /\ Last.mv = 1 => Last.mb[Last.src] = 1
+\* (or the settings block it outright: threshold 0)
+SpamOnlyIfBanned == HasLast /\ IsArr /\ Last.mv = 1 => Last.mb[Last.src] = 1 \/ Last.thr = 0
 
 \* a source is banned only (by its own arrival and) if at least its threshold of events arrived since
 \* the previous maintenance round
